@@ -535,6 +535,37 @@ def deep_snap(ent: Any, memo: Dict[int, Any]) -> dict:
     return s
 
 
+def vandalise(ent: Any, depth: int = 0) -> None:
+    """Edit everything mutable that is reachable from a definition handed out by the library."""
+    from srctools import fgd as F
+    ent.desc = ent.desc + ' (edited)'
+    ent.kv_order = list(ent.kv_order) + ['zz_added']
+    ent.helpers[:] = []
+    if isinstance(ent.resources, list):
+        ent.resources.append(F.Resource('edited/by/caller.mdl', F.FileType.MODEL))
+        if len(ent.resources) > 1:
+            del ent.resources[0]
+    for attr in ('keyvalues', 'inputs', 'outputs'):
+        coll = getattr(ent, attr)
+        for key, tags_map in list(coll.items()):
+            for tags, val in list(tags_map.items()):
+                val.desc = 'edited'
+                if attr == 'keyvalues':
+                    val.default = 'edited'
+                    val.disp_name = 'Edited'
+                    if val.val_list:
+                        val.val_list.append(val.val_list[0])
+                        del val.val_list[0]
+            if key.startswith(('a', 'm', 's')):
+                del coll[key]
+    ent.keyvalues['zz_added'] = {frozenset(): F.KVDef('zz_added', F.ValueTypes.STRING, 'Added')}
+    if depth < 3:
+        for base in list(ent.bases):
+            if not isinstance(base, str):
+                vandalise(base, depth + 1)
+    ent.bases[:] = []
+
+
 def lazy_case(run, index: int) -> None:
     from srctools import fgd as F
     rng = sub_rng(run.seed, 'lazy', index)
@@ -592,6 +623,24 @@ def lazy_case(run, index: int) -> None:
             break
         run.count('lazy_queries')
         got = deep_snap(ent, {} if via_public else memo)
+        if via_public and qi % 3 == 0 and G.first_diff(ref[name.casefold()], got) is None:
+            # what engine_def() hands out is the caller's own copy: whatever is done to it, the next lookup is unaffected
+            vandalise(ent)   # (an exception in here is a harness error and ends the run as inconclusive)
+            try:
+                again = deep_snap(get(name), {})
+            except Exception as exc:
+                run.violation(f'editing the definition returned for {name!r} and asking again raised {type(exc).__name__}: {exc}',
+                              case=dict(case, order=order[:qi + 1][-30:]), engine='lazy', key='lazy-returned-copy-not-isolated')
+                bad = True
+                break
+            run.count('returned_definitions_edited')
+            d2 = G.first_diff(ref[name.casefold()], again)
+            if d2 is not None:
+                run.violation(f'after editing the definition returned for {name!r}, the next lookup differs at {d2[0]}: {_clip(d2[1])!r} vs {_clip(d2[2])!r}',
+                              witness={'path': d2[0]}, case=dict(case, order=order[:qi + 1][-30:]), engine='lazy',
+                              key='lazy-returned-copy-not-isolated')
+                bad = True
+                break
         d = G.first_diff(ref[name.casefold()], got)
         if d is not None:
             run.violation(f'query #{qi} {name!r} differs from the fully loaded definition at {d[0]}: '
@@ -769,7 +818,7 @@ def main(run, shard=(0, 1)) -> None:
         if cnt:
             run.count('reach:' + label_, cnt)
     run.require(*['reach:' + label_ for label_ in probe.counts])
-    run.require('spawnflag_names_with_leading_blanks', 'exports', 'parses', 'file_form_exports', 'fgd_level_sections_compared', 'visgroup_trees_checked_against_export', 'engine_db_shape_checks', 'entities_compared', 'second_exports', 'serialise_calls', 'unserialise_calls',
+    run.require('spawnflag_names_with_leading_blanks', 'exports', 'parses', 'file_form_exports', 'fgd_level_sections_compared', 'visgroup_trees_checked_against_export', 'engine_db_shape_checks', 'returned_definitions_edited', 'entities_compared', 'second_exports', 'serialise_calls', 'unserialise_calls',
                 'lazy_queries', 'dbase_roundtrips', 'binary_dbase_roundtrips', 'long_strings', 'empty_display_names',
                 'tagged_duplicate_keys', 'aliases', 'texts_with_plus_split', 'binary_entities_compared')
 
